@@ -17,3 +17,8 @@ pub fn verif_print() { }
 pub proof fn axiom_slice_len_bound<T>(s: &[T])
     ensures s@.len() <= usize::MAX
 { }
+
+#[verifier::external_body]
+pub proof fn axiom_vec_len_bound<T>(v: &Vec<T>)
+    ensures v@.len() <= usize::MAX
+{ }
